@@ -94,6 +94,19 @@ def directed_wl():
     return h
 
 
+def nested_wl():
+    """A wordlist recipe generated from inside a chain of 3, 17, 18 and 40 other Generate calls (separator functions that generate)."""
+    words = [o(w) for w in ("one", "two", "three", "kettő")]
+    call = lambda k: dict(op="call", obj=k, paths=2)
+    h = []
+    for sep in (dict(sep="char", sepChar=o("-")), dict(sep="SFDigits1", sepChar=[])):
+        ob = dict(words=[], nolist=0, len=3, cap="first")
+        ob.update(sep)
+        h.append(dict(kind="whist", words=words, wobjs=[ob], steps=[call(0)] + [dict(op="nest", obj=0, idx=d) for d in (3, 17, 18, 40)] + [call(0)],
+                      maxTrials=0, failRateOne=0, tag="wl-nested-calls"))
+    return h
+
+
 def wl_history(rng, length):
     words = [o(w) for w in rng.sample(wlfam.CAPITALISABLE + wlfam.UNCAP, rng.randint(2, 6))]
     if rng.random() < 0.25:
@@ -204,7 +217,7 @@ def run(ctx):
         if r["violated"] != inv:
             raise Undecided("non-vacuity witness failed: %s should violate %s in the model" % (what, inv))
     ctx.cover["non_vacuity_process"] = "Process.tla with FreezeLimits / MemoByKey / RaiseLimits = TRUE: TLC refutes the stated invariant in each"
-    hists = directed_char() + directed_wl() + [char_history(rng, rng.randint(12, 40 if quick else 60)) for _ in range(30 if quick else 500)]
+    hists = directed_char() + directed_wl() + nested_wl() + [char_history(rng, rng.randint(12, 40 if quick else 60)) for _ in range(30 if quick else 500)]
     hists += [wl_history(rng, rng.randint(10, 30)) for _ in range(16 if quick else 250)]
     th, total = tlc_histories(ctx, rng, 200 if quick else 100000)
     hists += th
@@ -248,6 +261,35 @@ def run(ctx):
                               % (tag, sorted(only_in_history)[0]), dict(kind="history", history_tag=tag, recipe=c["char"], whys=sorted(only_in_history)))
             else:
                 ctx.notes.append("recipe fails %s also when run alone: not history dependence" % sorted(whys)[0])
+    # the same for wordlist calls (e.g. a call made from inside other calls that errs although the recipe is fine alone)
+    wsus = {}
+    for v, f in zip(wverd, wfiles):
+        for b in v["bad"]:
+            # (only verdicts that do not depend on which words the draws happened to select - a fresh process orders the list afresh -
+            # and only lists inside the domain: an empty entry makes the number of atoms a matter of the draws)
+            if b["why"] in ("P:C13:error-for-a-recipe-that-can-be-honoured", "P:C13:Generate-panicked", "P:C13:error-together-with-a-password-or-neither"):
+                c = cell_of(f, b["l"], "wcell")
+                if c and [] not in c["wl"]["words"]:
+                    key = json.dumps([c["wl"], c["maxTrials"], c["failRateOne"]], sort_keys=True)
+                    wsus.setdefault(key, (c, set(), c["tag"]))[1].add(b["why"])
+    if wsus:
+        alone = [dict(kind="wl", wl=c["wl"], maxTrials=0 if c["maxTrials"] == 200 else c["maxTrials"], failRateOne=c["failRateOne"], mode="paths", paths=3,
+                      maxLeaves=0, tag="alone", reps=0) for c, _, _ in wsus.values()]
+        afiles, _, _ = wlfam.run_scenarios(ctx, alone, "c15walone", shards=1)
+        averd, _ = wlfam.validate(ctx, afiles)
+        alone_bad = {}
+        for v, f in zip(averd, afiles):
+            for b in v["bad"]:
+                c = cell_of(f, b["l"], "wcell")
+                if c:
+                    alone_bad.setdefault(json.dumps([c["wl"], c["maxTrials"], c["failRateOne"]], sort_keys=True), set()).add(b["why"])
+        for key, (c, whys, tag) in wsus.items():
+            only_in_history = {w for w in whys if w not in alone_bad.get(key, set())}
+            if only_in_history:
+                ctx.violation("outcome of a call depends on the calls around it: in history %s the wordlist recipe gives '%s', alone in a fresh process it does not"
+                              % (tag, sorted(only_in_history)[0]), dict(kind="history", history_tag=tag, recipe=c["wl"], whys=sorted(only_in_history)))
+            else:
+                ctx.notes.append("wordlist recipe fails %s also when run alone: not history dependence" % sorted(whys)[0])
     ctx.assumptions += ["history dependence through process-wide state is detected by comparing with a run of the same recipe alone in a fresh process",
                         "the random stream of each call is held fixed by seeding the index path"]
     return "%d calls in %d histories on the real library validated by TLC (CharTrace/WordTrace incl. twin equality and deep snapshots)" % (calls, len(hists))
